@@ -301,7 +301,7 @@ func runRange(tb *testing.T, e *Engine, job *Job, out *Out) {
 		out.Found = append(out.Found, *found[k])
 	}
 	// Render a few of the cases actually explored.
-	if job.Worker == 0 {
+	if job.Worker == 0 || job.Workers > 1<<20 {
 		for _, c := range sampleCases {
 			tp := caseTape(e, job, c, nEnum)
 			res, _, err := runOne(e, job, tb, tp, true)
